@@ -598,6 +598,7 @@ package url
 //@   requires stateOverride == StateFragment ==> url.fragment != nil
 //@   requires (stateOverride == StatePathStart || stateOverride == StateHost || stateOverride == StateHostname) ==> !url.path.opaque
 //@   requires stateOverride == StatePort ==> (url.host != nil && url.scheme != "file")
+//@   requires stateOverride == StatePathStart ==> len(url.path.p) == 0
 //@   modifies url.*, url.path.*, url.path.p[..], url.validationErrors[..]
 //@   ensures (url == nil && result1 == nil) ==> (result0 != nil && fresh(result0) && wf(result0) && result0.parser == p)   [C02,C04,C19]
 //@   ensures url != nil ==> wf(url)   [C02,C04,C19]
@@ -632,6 +633,8 @@ package url
 //@           && result0.username == "" && result0.password == "" && result0.port == nil)   [C01 opaque-path-shape]
 //@   ensures (url == nil && result1 == nil && opaqueCase(result0) && p.opts.encodingOverride == nil) ==> result0.path.p[0] == opaqueSeg(result0, firstQH(result0))   [C01 opaque-path-value]
 //@   ensures (url == nil && result1 == nil && (baseUrl == nil || shapeP(baseUrl))) ==> shapeP(result0)   [C04 parse-establishes-shape]
+//@   ensures (url == nil && result1 == nil && old(baseUrl == nil || collapsedOK(baseUrl)) && (baseUrl == nil || shapeP(baseUrl))) ==> collapsedOK(result0)   [C16 collapse-leaves-no-empty-non-final-segment]
+//@   ensures (url != nil && old(collapsedOK(url))) ==> collapsedOK(url)   [C16 collapse-leaves-no-empty-non-final-segment]
 //@   ensures (url == nil && baseUrl != nil && result1 == nil && lawCase(result0)) ==> (result0.scheme == baseUrl.scheme && pathEq(result0.path, baseUrl.path)
 //@           && (shapeP(baseUrl) ==> authEq(result0, baseUrl)))   [C06 fragment-or-query-only-reference-keeps-base]
 //@   ensures (url == nil && baseUrl != nil && result1 == nil && (inN(result0) == 0 || startsHash(result0))) ==> boxEq(result0.query, baseUrl.query)   [C06 fragment-only-reference-keeps-query]
@@ -815,7 +818,8 @@ package url
 //@   loop 1 step (prev(state) == StatePath && (prev(input.pointer) + 1 >= input.length || r == 0x2F || (special(url, url.scheme) && r == 0x5C) || (!stateOverridden && (r == 0x3F || r == 0x23))) && !isDD(prev(bufv(buffer))) && !isSD(prev(bufv(buffer))) && !(url.scheme == "file" && prev(len(url.path.p)) == 0 && isWDL(prev(bufv(buffer)))) && !(p.opts.collapseConsecutiveSlashes && special(url, url.scheme) && prev(len(url.path.p)) > 0 && len(prev(url.path.p[len(url.path.p) - 1])) == 0)) ==> (len(url.path.p) == prev(len(url.path.p)) + 1 && url.path.p[len(url.path.p) - 1] == prev(bufv(buffer)) && !url.path.opaque && (forall k int :: (0 <= k && k < prev(len(url.path.p))) ==> url.path.p[k] == prev(url.path.p[k])) && bufv(buffer) == "")   [C01,C05 path-state-segment]
 //@   loop 1 step (prev(state) == StatePath && (prev(input.pointer) + 1 >= input.length || r == 0x2F || (special(url, url.scheme) && r == 0x5C) || (!stateOverridden && (r == 0x3F || r == 0x23))) && !isDD(prev(bufv(buffer))) && !isSD(prev(bufv(buffer))) && (url.scheme == "file" && prev(len(url.path.p)) == 0 && isWDL(prev(bufv(buffer)))) && !p.opts.skipWindowsDriveLetterNormalization) ==> (len(url.path.p) == 1 && url.path.p[0] == prev(bufv(buffer))[0:1] + ":" + prev(bufv(buffer))[2:len(prev(bufv(buffer)))])   [C01,C05 path-state-drive-letter]
 //@   loop 1 step (prev(state) == StatePath && (prev(input.pointer) + 1 >= input.length || r == 0x2F || (special(url, url.scheme) && r == 0x5C) || (!stateOverridden && (r == 0x3F || r == 0x23))) && isDD(prev(bufv(buffer)))) ==> (len(url.path.p) == ((url.scheme == "file" && prev(len(url.path.p)) == 1 && isNWDL(prev(url.path.p[0]))) ? prev(len(url.path.p)) : max(prev(len(url.path.p)) - 1, 0)) + ((r == 0x2F || (special(url, url.scheme) && r == 0x5C)) ? 0 : 1) && (!(r == 0x2F || (special(url, url.scheme) && r == 0x5C)) ==> url.path.p[len(url.path.p) - 1] == "") && (forall k int :: (0 <= k && k < ((url.scheme == "file" && prev(len(url.path.p)) == 1 && isNWDL(prev(url.path.p[0]))) ? prev(len(url.path.p)) : max(prev(len(url.path.p)) - 1, 0))) ==> url.path.p[k] == prev(url.path.p[k])) && bufv(buffer) == "")   [C01,C05 path-state-double-dot]
-//@   loop 1 step (prev(state) == StatePath && (prev(input.pointer) + 1 >= input.length || r == 0x2F || (special(url, url.scheme) && r == 0x5C) || (!stateOverridden && (r == 0x3F || r == 0x23))) && !isDD(prev(bufv(buffer))) && isSD(prev(bufv(buffer)))) ==> (len(url.path.p) == prev(len(url.path.p)) + ((r == 0x2F || (special(url, url.scheme) && r == 0x5C)) ? 0 : 1) && (!(r == 0x2F || (special(url, url.scheme) && r == 0x5C)) ==> url.path.p[len(url.path.p) - 1] == "") && (forall k int :: (0 <= k && k < prev(len(url.path.p))) ==> url.path.p[k] == prev(url.path.p[k])) && bufv(buffer) == "")   [C01,C05 path-state-single-dot]
+//@   loop 1 step (prev(state) == StatePath && (prev(input.pointer) + 1 >= input.length || r == 0x2F || (special(url, url.scheme) && r == 0x5C) || (!stateOverridden && (r == 0x3F || r == 0x23))) && !isDD(prev(bufv(buffer))) && isSD(prev(bufv(buffer)))) ==> (len(url.path.p) == prev(len(url.path.p)) + (((r == 0x2F || (special(url, url.scheme) && r == 0x5C)) || (p.opts.collapseConsecutiveSlashes && special(url, url.scheme) && prev(len(url.path.p)) > 0 && len(prev(url.path.p[len(url.path.p) - 1])) == 0)) ? 0 : 1) && ((!(r == 0x2F || (special(url, url.scheme) && r == 0x5C)) && !(p.opts.collapseConsecutiveSlashes && special(url, url.scheme) && prev(len(url.path.p)) > 0 && len(prev(url.path.p[len(url.path.p) - 1])) == 0)) ==> url.path.p[len(url.path.p) - 1] == "") && (forall k int :: (0 <= k && k < prev(len(url.path.p))) ==> url.path.p[k] == prev(url.path.p[k])) && bufv(buffer) == "")   [C01,C05 path-state-single-dot]
+//@   loop 1 step (prev(state) == StatePath && (prev(input.pointer) + 1 >= input.length || r == 0x2F || (special(url, url.scheme) && r == 0x5C) || (!stateOverridden && (r == 0x3F || r == 0x23))) && !isDD(prev(bufv(buffer))) && !isSD(prev(bufv(buffer))) && !(url.scheme == "file" && prev(len(url.path.p)) == 0 && isWDL(prev(bufv(buffer)))) && (p.opts.collapseConsecutiveSlashes && special(url, url.scheme) && prev(len(url.path.p)) > 0 && len(prev(url.path.p[len(url.path.p) - 1])) == 0)) ==> (len(url.path.p) == prev(len(url.path.p)) && url.path.p[len(url.path.p) - 1] == prev(bufv(buffer)) && (forall k int :: (0 <= k && k < prev(len(url.path.p)) - 1) ==> url.path.p[k] == prev(url.path.p[k])) && bufv(buffer) == "")   [C01,C16 path-state-collapse]
 //@   loop 1 step (prev(state) == StateNoScheme && baseUrl.path.opaque) ==> (url.scheme == base.scheme && url.path == base.path && url.query == base.query && url.fragment != nil && *url.fragment == "")   [C01,C06 base-parts-copied]
 //@   loop 1 step prev(state) == StateRelative ==> url.scheme == base.scheme   [C01,C06 base-parts-copied]
 //@   loop 1 step (prev(state) == StateRelative && !(r == 0x2F || (special(url, url.scheme) && r == 0x5C))) ==> (url.username == base.username && url.password == base.password && url.host == base.host && url.port == base.port && url.decodedPort == base.decodedPort && url.path == base.path)   [C01,C06 base-parts-copied]
@@ -830,6 +834,14 @@ package url
 //@   loop 1 step (prev(state) == StateFile && r != 0x2F && r != 0x5C && base != nil && base.scheme == "file") ==> (url.host == base.host && url.path == base.path && (r == 0x3F ==> (url.query != nil && *url.query == "")) && (r == 0x23 ==> (url.query == base.query && url.fragment != nil && *url.fragment == "")) && ((r != 0x3F && r != 0x23) ==> url.query == nil))   [C01,C06 base-parts-copied]
 //@   loop 1 step (prev(state) == StateFileSlash && r != 0x2F && r != 0x5C && base != nil && base.scheme == "file") ==> (url.host == base.host && url.path == prev(url.path))   [C01,C06 base-parts-copied]
 //@   loop 1 step (prev(state) == StateFileSlash && (r == 0x2F || r == 0x5C || !(base != nil && base.scheme == "file"))) ==> (url.host == prev(url.host) && url.path == prev(url.path) && len(url.path.p) == prev(len(url.path.p)))   [C01,C06 base-parts-copied]
+//@   loop 1 invariant (!stateOverridden && (state == StateSchemeStart || state == StateScheme || state == StateNoScheme || state == StateSpecialRelativeOrAuthority
+//@            || state == StatePathOrAuthority || state == StateRelative || state == StateRelativeSlash || state == StateSpecialAuthoritySlashes
+//@            || state == StateSpecialAuthorityIgnoreSlashes || state == StateFile || state == StateFileSlash || state == StateFileHost || state == StateAuthority
+//@            || state == StateHost || state == StateHostname || state == StatePort || state == StatePathStart)) ==> len(url.path.p) == 0
+//@   loop 1 step (prev(state) == StatePath && (prev(input.pointer) + 1 >= input.length || r == 0x2F || (special(url, url.scheme) && r == 0x5C) || (!stateOverridden && (r == 0x3F || r == 0x23))) && p.opts.collapseConsecutiveSlashes && special(url, url.scheme)) ==> (forall k int :: (0 <= k && k < len(url.path.p) - 1) ==> ((k < prev(len(url.path.p)) - 1 && url.path.p[k] == prev(url.path.p[k])) || url.path.p[k] != ""))   [C16 path-state-collapse-bridge]
+//@   loop 1 step (prev(state) == StatePath && !(prev(input.pointer) + 1 >= input.length || r == 0x2F || (special(url, url.scheme) && r == 0x5C) || (!stateOverridden && (r == 0x3F || r == 0x23)))) ==> (len(url.path.p) == prev(len(url.path.p)) && url.path.opaque == prev(url.path.opaque) && (forall k int :: (0 <= k && k < prev(len(url.path.p))) ==> url.path.p[k] == prev(url.path.p[k])))   [C01,C16 path-state-code-point-keeps-path]
+//@   loop 1 invariant (stateOverride == StatePathStart && state == StatePathStart) ==> len(url.path.p) == 0
+//@   loop 1 invariant (old(url) == nil ? (old(baseUrl == nil || collapsedOK(baseUrl)) && (baseUrl == nil || shapeP(baseUrl))) : old(collapsedOK(url))) ==> collapsedOK(url)
 //@   loop 1 decreases specRank(state), input.length - input.pointer
 //@   loop 2 modifies url.username, url.password, bb.pointer, bb.eof
 //@   loop 2 invariant cur(bb) && fresh(bb) && bb != input && url != nil
